@@ -11,6 +11,10 @@ CLAIMED = {
    text="Seeded exploration of generated programs (all opcode bytes incl. reserved/disabled/template pseudo-opcodes, Coinbase bits, nested conditionals, edge-encoded operands, spending-transaction context with real signatures, separators inside spliced branches) under seeded driver schedules (next / next_n / run / accessors / clone-forks on up to 3 interpreters) while the worker's real fd 1 is made to fail (ENOSPC via /dev/full, EPIPE, EAGAIN after N bytes, EBADF control) and healed. Oracles: no panic (site#opcode), bounded step count, every schedule observes the reference single-step trace state for state and ends in its outcome, stacks unchanged after an error and after None. Sampling; quick = 20k programs x schedules.",
    note="Reference trace is the library itself single-stepped with a healthy stdout (self-consistency, not opcode semantics - that is C14). Programs whose next step would allocate > ~1 MiB per operand are dropped; allocator-exhaustion aborts are a `resource` outcome because C16 does not bound memory. overflow-checks are on (as in the repo's own test profile).",
    technique="deterministic simulation: seeded driver-schedule scheduler over the interpreter step machine with stdout fault injection (real fd 1), differential oracle against a single-step reference trace"),
+ "C09": dict(section="4/C09", scenario="artefact-medium",
+   text="Seeded exploration over 55 public decoding entry points: a producer makes a valid artefact with the real encoder, a medium applies 0-3 faults (truncate, bit flip, byte set, length-field inflation with 28 compact-size/PUSHDATA/CBOR-head patterns at located or seeded offsets, junk, splice, duplication, emptying, random replacement, conditional nesting to 2*10^5), optionally misdelivers it to another decoder, and the real decoder runs in a worker process whose allocator refuses any request lifting live heap above 1024*len+1MiB. Panics are caught with their site; allocator exhaustion, native stack overflow and hangs kill the worker and are attributed to run and decoder by the parent through a shared-memory breadcrumb. Sampling; quick = 60k artefacts.",
+   note="alpha=1024/beta=1MiB calibrated at 4x the largest fault-free peak/len ratio (histogram in evidence on every run); CBOR decoders get beta=320MiB because serde pre-allocates min(declared, 1MiB) per sequence and ciborium recurses <=256 levels (a constant, not a declared length). Inputs to base58 decoders are capped at 8KiB (quadratic time; the property does not bound time). Scenario code runs on an explicit 8MiB stack. Known finding: recursive conditional parser overflows the stack at ~10^5 nesting (8 decoder kinds).",
+   technique="deterministic simulation: seeded producer/medium/consumer pipeline with storage-fault injection, budgeted allocator and worker-process death attribution"),
 }
 
 NA = {
